@@ -16,6 +16,7 @@ import (
 	"os"
 	"path/filepath"
 	"testing"
+	"time"
 
 	"github.com/glowlabs-org/gca-backend/glow"
 	"github.com/glowlabs-org/gca-backend/server"
@@ -84,6 +85,7 @@ func TestC20AcceptanceNoWrap(t *testing.T) {
 		s    *world.Server
 		off  uint32
 		used map[uint32]bool
+		born time.Time
 	}
 	var servers []*c20srv
 	defer func() {
@@ -94,7 +96,9 @@ func TestC20AcceptanceNoWrap(t *testing.T) {
 		}
 		world.StopAllLeaked()
 	}()
-	for _, off := range []uint32{0, c20Top} {
+	// mk starts a registered server with one device whose window begins at off;
+	// nil means that the server cannot be brought there (top window only).
+	mk := func(off uint32) *c20srv {
 		dir := world.NewServerDir(temp.Pub)
 		if off != 0 {
 			// the window offset is restored from the label of the last archived week
@@ -103,6 +107,8 @@ func TestC20AcceptanceNoWrap(t *testing.T) {
 				t.Fatal(err)
 			}
 			glow.SetCurrentTimeslot(off + 100)
+		} else {
+			glow.SetCurrentTimeslot(0)
 		}
 		s, err := world.StartServer(dir)
 		if err != nil {
@@ -111,18 +117,16 @@ func TestC20AcceptanceNoWrap(t *testing.T) {
 				// brought to the top of the range this way; that is not a violation
 				ev.Label("c20:top-window-server-not-constructible")
 				os.RemoveAll(dir)
-				continue
+				return nil
 			}
 			t.Fatal(err)
 		}
-		servers = append(servers, &c20srv{s: s, off: off, used: map[uint32]bool{}})
 		if s.S.VerifSnapshot().Offset != off {
 			if off != 0 {
 				ev.Label("c20:top-window-server-not-constructible")
-				servers = servers[:len(servers)-1]
 				s.Close()
 				os.RemoveAll(dir)
-				continue
+				return nil
 			}
 			t.Fatalf("C20: fresh server has offset %d", s.S.VerifSnapshot().Offset)
 		}
@@ -132,9 +136,26 @@ func TestC20AcceptanceNoWrap(t *testing.T) {
 		if st, body, err := s.Authorize(a); err != nil || st != 200 {
 			t.Fatalf("authorize: %v %d %s", err, st, body)
 		}
+		return &c20srv{s: s, off: off, used: map[uint32]bool{}, born: time.Now()}
+	}
+	for _, off := range []uint32{0, c20Top} {
+		if x := mk(off); x != nil {
+			servers = append(servers, x)
+		}
 	}
 	rapid.Check(t, func(t *rapid.T) {
 		x := servers[rapid.IntRange(0, len(servers)-1).Draw(t, "server")]
+		// a server of the test build ends the process after 120 s of life: take a fresh one in time
+		if time.Since(x.born) > fixtureMaxAge {
+			glow.SetCurrentTimeslot(x.off)
+			x.s.Close()
+			os.RemoveAll(x.s.Dir)
+			if y := mk(x.off); y != nil {
+				*x = *y
+			} else {
+				t.Fatalf("C20: the server for offset %d could be started once but not again", x.off)
+			}
+		}
 		s, off, used := x.s, x.off, x.used
 		var now uint32
 		switch rapid.IntRange(0, 5).Draw(t, "nowClass") {
